@@ -129,6 +129,11 @@ def make_handlers(ctx):
 
     def h_write_index(interp, st, args, n):
         wptr, parr, R = args
+        if not isinstance(parr, Ptr) or parr.obj is None:
+            # precondition of the callee: a block of rows. The path is cut here; if it is feasible the obligation fails and is reported,
+            # if it was only kept because a feasibility query timed out the solver proves it infeasible.
+            interp.oblige(st, "pre.digital_rf_write_rf_data_index.rows_nonnull", False, n["_line"], kind="pre")
+            return []
         wobj = st.mem[wptr.obj]
         idx_ds = wobj.fields["index_dataset"]
         di = wobj.fields["dataset_index"]
